@@ -1,13 +1,14 @@
 package updog
 
 import (
+	"encoding/binary"
 	"fmt"
-	"math/bits"
 	"sort"
 	"strings"
 	"time"
 
 	"github.com/RoaringBitmap/roaring"
+	"github.com/cespare/xxhash/v2"
 )
 
 // Query describes a count query to execute on an index. updog allows you to run
@@ -246,7 +247,26 @@ const (
 )
 
 func (e *ExprNot) cacheKey() uint64 {
-	return bits.RotateLeft64(e.Expr.cacheKey(), 1) ^ maskNot
+	return combineCacheKeys(maskNot, []uint64{e.Expr.cacheKey()})
+}
+
+// combineCacheKeys derives the cache key of an operator node from the operator's
+// mask and the keys of its operands. The operand keys are sorted first, so that
+// the key of the commutative operators does not depend on the operand order, and
+// then hashed together with the mask and the operand count, so that expressions
+// with a different structure get different keys.
+func combineCacheKeys(mask uint64, keys []uint64) uint64 {
+	sort.Slice(keys, func(i, j int) bool { return keys[i] < keys[j] })
+
+	buf := make([]byte, 0, 8*(len(keys)+2))
+	buf = binary.BigEndian.AppendUint64(buf, mask)
+	buf = binary.BigEndian.AppendUint64(buf, uint64(len(keys)))
+
+	for _, k := range keys {
+		buf = binary.BigEndian.AppendUint64(buf, k)
+	}
+
+	return xxhash.Sum64(buf)
 }
 
 type ExprAnd struct {
@@ -297,12 +317,12 @@ func (e *ExprAnd) String() string {
 }
 
 func (e *ExprAnd) cacheKey() uint64 {
-	key := uint64(maskAnd)
+	keys := make([]uint64, 0, len(e.Exprs))
 	for _, e := range e.Exprs {
-		key = key ^ bits.RotateLeft64(e.cacheKey(), 1)
+		keys = append(keys, e.cacheKey())
 	}
 
-	return key
+	return combineCacheKeys(maskAnd, keys)
 }
 
 type ExprOr struct {
@@ -353,10 +373,10 @@ func (e *ExprOr) String() string {
 }
 
 func (e *ExprOr) cacheKey() uint64 {
-	key := uint64(maskOr)
+	keys := make([]uint64, 0, len(e.Exprs))
 	for _, e := range e.Exprs {
-		key = key ^ bits.RotateLeft64(e.cacheKey(), 1)
+		keys = append(keys, e.cacheKey())
 	}
 
-	return key
+	return combineCacheKeys(maskOr, keys)
 }
